@@ -372,6 +372,14 @@ func c17(run *ev.Run) int {
 			run.Violation(key+"/plugin-error", "the generator reported an error on a valid file: "+resp.GetError(), detail)
 			continue
 		}
+		// Whatever it emits, the plugin declares that it understands proto3
+		// optional fields: protoc refuses the whole invocation for any proto3 file
+		// with such a field otherwise, services or not.
+		run.Count("supported_features.checked", 1)
+		if resp.GetSupportedFeatures()&uint64(pluginpb.CodeGeneratorResponse_FEATURE_PROTO3_OPTIONAL) == 0 {
+			run.Violation(key+"/supported-features", fmt.Sprintf("the generator's response does not declare FEATURE_PROTO3_OPTIONAL (supported_features = %d); protoc would reject the invocation for a proto3 file with optional fields", resp.GetSupportedFeatures()), detail)
+			continue
+		}
 		if len(f.Services) == 0 {
 			if len(resp.File) != 0 {
 				run.Violation(key+"/output-without-services", "the generator emitted a file for a proto file without services", detail)
